@@ -1,6 +1,7 @@
 From Coq Require Import ZArith QArith List Bool Lia.
 Import ListNotations.
 Require Import Py Pairing.
+Require Export Fac.
 Open Scope Z_scope.
 
 
@@ -117,18 +118,6 @@ Definition resolve_pair (a b : segment) : res (segment * segment) :=
     if sscore rsub <? sscore lsub then Ok (a, seg_sub b (positions rsub)) else Ok (seg_sub a (positions lsub), b).
 
 (* ---------- factory (segments_factory.py) on scored positions ---------- *)
-Record fst_ := mkF { cstart : nat; cend : nat; ext : Z; cur : option (nat * nat * Z); fres : list (nat * nat * Z) }.
-Definition cur_score (s : fst_) : Z := match cur s with None => 0 | Some (_, _, x) => x end.
-Definition add_if_enough (ms : Z) (s : fst_) : fst_ :=
-  if ms <=? cur_score s then match cur s with Some c => mkF (cstart s) (cend s) (ext s) None (fres s ++ [c]) | None => s end else s.
-Definition fstep (ms bs : Z) (s : fst_) (x : Z) : fst_ :=
-  let e := ext s + x in
-  if e <=? Z.max 0 (cur_score s - bs) then
-    let s1 := add_if_enough ms s in mkF (S (cend s)) (S (cend s)) 0 (cur s1) (fres s1)
-  else let en := S (cend s) in
-    if cur_score s <? e then mkF (cstart s) en e (Some (cstart s, en, e)) (fres s) else mkF (cstart s) en e (cur s) (fres s).
-Definition factory_ranges (ms bs : Z) (scores : list Z) : list (nat * nat * Z) :=
-  fres (add_if_enough ms (fold_left (fstep ms bs) scores (mkF 0 0 0 None []))).
 Definition get_segments (P : params) (ps : list spos) (peak : Z) : list segment :=
   match factory_ranges (MS P) (BS P) (map sc ps) with
   | [] => [seg_create [] peak]
